@@ -8,6 +8,8 @@ Line protocol:
   `wf <script>`                    → `<storeLast> <allChecked> <allGuarded> <commits>`
   `errclass <handler|raw> <kind>`  → `pairing|connection|other` (the error_handler mapping)
   `runpin <script> <expected> <typed>` → as `run`, the fault derived from the two PIN values
+  `runinit <script> <idx|-> <kind|-> <a> <b>` → `<outcome> <svc> <settings> <paired>` with the
+       credential VALUES held afterwards (0 none, 1 A, 2 B, 9 freshly paired) from initial (a, b)
 -/
 namespace PyatvModel.C08
 
@@ -41,6 +43,21 @@ def handle (_ : Unit) (ws : List String) : Unit × String :=
     match script? name with
     | some s => ((), s!"{b01 (storeLast s)} {b01 (allChecked s)} {b01 (allGuarded s)} {b01 (commits s)}")
     | none => ((), "bad-op")
+  | ["runinit", name, idx, kind, a, b] =>
+    match script? name, Cred.ofStr? a, Cred.ofStr? b with
+    | some s, some a, some b =>
+      let fault? : Option (Option (Nat × Fault)) :=
+        if idx == "-" && kind == "-" then some none
+        else match idx.toNat?, Fault.ofStr? kind with
+          | some i, some f => some (some (i, f))
+          | _, _ => none
+      (match fault? with
+       | some fault =>
+         let r := run s fault
+         let c := credsAfter a b r.2
+         ((), s!"{r.1.toStr} {c.1.toStr} {c.2.toStr} {b01 r.2.paired}")
+       | none => ((), "bad-op"))
+    | _, _, _ => ((), "bad-op")
   | ["runpin", name, e, t] =>
     match script? name, e.toNat?, t.toNat? with
     | some s, some e, some t => ((), showRun (runPins s e t))
